@@ -275,3 +275,29 @@ pub fn log_loc_stub() -> &'static core::panic::Location<'static> {
     static FAKE: [u64; 4] = [0; 4];
     unsafe { &*(FAKE.as_ptr() as *const core::panic::Location<'static>) }
 }
+
+/// FDL station whose parameters (the only thing the DP layer reads) are symbolic.
+pub fn any_fdl() -> crate::fdl::FdlActiveStation {
+    let address: u8 = kani::any();
+    kani::assume(address <= 125);
+    let max_retry_limit: u8 = kani::any();
+    kani::assume(max_retry_limit >= 1 && max_retry_limit <= 15);
+    let min_tsdr_bits: u8 = kani::any();
+    kani::assume(min_tsdr_bits >= 11);
+    let watchdog_factors = if kani::any() {
+        let f1: u8 = kani::any();
+        let f2: u8 = kani::any();
+        kani::assume(f1 >= 1 && f2 >= 1);
+        Some((f1, f2))
+    } else {
+        None
+    };
+    crate::fdl::FdlActiveStation::new(crate::fdl::Parameters {
+        address,
+        max_retry_limit,
+        min_tsdr_bits,
+        watchdog_factors,
+        ..Default::default()
+    })
+}
+
